@@ -4,7 +4,7 @@
 # existing tests of the package pass with it), then applies it to /repo, runs ./check, reverts.
 set -u
 P=$1; M=$2; ID=$3; PKG=$4; RX=$5; shift 5
-WT=/tmp/mut_$P
+WT=${SEED_WT:-/tmp/mut_$P}
 export GOFLAGS=-mod=mod GOPROXY=off
 OUT=/verif/seeded/$ID; mkdir -p $OUT
 cp $M/patch.diff $OUT/patch.diff; cp $M/demo_test.go $OUT/demo_test.go; cp $M/README.md $OUT/agent_README.md 2>/dev/null
